@@ -81,7 +81,6 @@ Section Publish3.
   Let b := publish3 v dup qos retain topic pid payload.
   Hypothesis Hv : v = 3 \/ v = 4.
   Hypothesis Hwf : wf_packet b = true.
-  Hypothesis Hfffd : has_fffd topic = false.
 
   Lemma p3_facts :
     qos <= 2 /\ negb ((qos =? 0) && dup) = true /\ len topic <= 65535 /\ spec_utf8 topic = true
@@ -135,8 +134,9 @@ Section Publish3.
     unfold b, publish3. cbn [dec_inv]. unfold oprops_inv. rewrite Hv5.
     repeat split; try assumption; try reflexivity.
     - unfold istr_ok, impl_utf8. rewrite Hutf. lia.
-    - unfold impl_name. rewrite name_decoder_partial; [|assumption|exact Hfffd|destruct topic; [congruence|reflexivity]].
+    - unfold impl_name. rewrite name_decoder_partial; [|assumption|destruct topic; [congruence|reflexivity]].
       unfold spec_topic_name, valid_name_spec. rewrite Hu, Hw. destruct topic; [congruence|reflexivity].
+    - unfold pub_topic_ok. destruct topic; [congruence|reflexivity].
   Qed.
 
   (* the decoder of pkg/packets reads the specification encoder's bytes back to the same value *)
@@ -193,14 +193,14 @@ End Publish3.
 Theorem spec_agree_publish3 : forall v dup qos retain topic pid payload,
   (v = 3 \/ v = 4) ->
   let b := BPublish v dup qos retain topic pid payload None in
-  wf_packet b = true -> has_fffd topic = false ->
+  wf_packet b = true ->
   pack b = Ok (spec_encode b)
   /\ spec_decode v (spec_encode b) = SOk (b, [])
   /\ exists p', read_packet v (spec_encode b) = Ok (p', []) /\ p_body p' = b.
 Proof.
-  intros v dup qos retain topic pid payload Hv b Hwf Hf.
-  split; [exact (p3_same_bytes v dup qos retain topic pid payload Hv Hwf Hf)|].
-  split; [|exact (p3_read_spec_encode v dup qos retain topic pid payload Hv Hwf Hf)].
-  apply (p3_spec_decode_pack v dup qos retain topic pid payload Hv Hwf Hf).
-  exact (p3_same_bytes v dup qos retain topic pid payload Hv Hwf Hf).
+  intros v dup qos retain topic pid payload Hv b Hwf.
+  split; [exact (p3_same_bytes v dup qos retain topic pid payload Hv Hwf)|].
+  split; [|exact (p3_read_spec_encode v dup qos retain topic pid payload Hv Hwf)].
+  apply (p3_spec_decode_pack v dup qos retain topic pid payload Hv Hwf).
+  exact (p3_same_bytes v dup qos retain topic pid payload Hv Hwf).
 Qed.
